@@ -73,7 +73,7 @@ func verifOrders(ops []verifOp, nthreads int) [][]int {
 }
 
 func VerifC03Concurrent() {
-	prog := verifrt.Param("PROG", 1) // 1: login || LOGIN+event; 2: + events of another session; 3: + cleanup; 4: all
+	prog := verifrt.Param("PROG", 1) // 1: login || LOGIN+event; 2: + events of another session; 3: + cleanup; 4: all; 5: login, login clean-up || events of another session
 	ps := verifrt.Str("login-pid", 2, 2, `[0-9]`)
 	verifrt.Assume(ps[0] != '0')
 	pid := int(ps[0]-'0')*10 + int(ps[1]-'0')
@@ -95,8 +95,21 @@ func VerifC03Concurrent() {
 	}
 	var ops []verifOp
 	ops = append(ops, verifOp{0, func(tr *sessionTracker) error { return tr.RemoteLogin(verifMakeLogin(0, pid, 500)) }})
-	ops = append(ops, verifOp{1, func(tr *sessionTracker) error { return tr.AuditdEvent(mkEvent(sid, auparse.AUDIT_LOGIN, qs, "open")) }})
-	ops = append(ops, verifOp{1, func(tr *sessionTracker) error { return tr.AuditdEvent(mkEvent(sid, auparse.AUDIT_USER_END, qs, "act")) }})
+	if prog == 5 {
+		// program 5: one deliverer parks a login and then runs the login clean-up with a cut-off far
+		// in the future, while another delivers the records of an unrelated session. In every
+		// sequential order the parked login is gone afterwards (the probe's LOGIN record of that PID
+		// is held, not emitted).
+		ops = append(ops, verifOp{0, func(tr *sessionTracker) error {
+			tr.DeleteRemoteUserLoginsBefore(verifrt.Unix(1000000))
+			return nil
+		}})
+		ops = append(ops, verifOp{1, func(tr *sessionTracker) error { return tr.AuditdEvent(mkEvent(sid2, auparse.AUDIT_LOGIN, other, "open2")) }})
+		ops = append(ops, verifOp{1, func(tr *sessionTracker) error { return tr.AuditdEvent(mkEvent(sid2, auparse.AUDIT_USER_END, other, "act2")) }})
+	} else {
+		ops = append(ops, verifOp{1, func(tr *sessionTracker) error { return tr.AuditdEvent(mkEvent(sid, auparse.AUDIT_LOGIN, qs, "open")) }})
+		ops = append(ops, verifOp{1, func(tr *sessionTracker) error { return tr.AuditdEvent(mkEvent(sid, auparse.AUDIT_USER_END, qs, "act")) }})
+	}
 	nthreads := 2
 	var independent []verifOp // deliveries of an unrelated session: they commute with all others
 	if prog == 2 || prog == 4 {
@@ -123,6 +136,10 @@ func VerifC03Concurrent() {
 	}
 	probe := func(tr *sessionTracker, enc *verifEnc) []string {
 		// residual state through the API: a follow-up event of the session, then the login's twin
+		if prog == 5 {
+			_ = tr.AuditdEvent(mkEvent(sid, auparse.AUDIT_LOGIN, ps, "probe-open"))
+			return verifObserve(enc)
+		}
 		_ = tr.AuditdEvent(mkEvent(sid, auparse.AUDIT_USER_END, qs, "probe"))
 		return verifObserve(enc)
 	}
